@@ -34,8 +34,8 @@ theorem chunks4 (src : List Nat) (so : Nat) (hso : so + 256 ≤ src.length) :
 set_option maxRecDepth 100000 in
 set_option maxHeartbeats 1000000 in
 theorem xs16_spec (s : State) (hG : s.gpr.length = 16) (hV : s.vec.length = 32) (Mf : List Nat → List Region) (dbase dlen : Nat)
-    (bf : Buf Mf dbase dlen) (src : List Nat) (sp : Nat) (hsrc : ∀ b, b.length = dlen → DataAt (Mf b) sp src) (hsb : ∀ x ∈ src, x < 2 ^ 8)
-    (b0 : List Nat) (hb0 : b0.length = dlen) (hm : s.mem = Mf b0) (so doff : Nat) (h10 : greg s 10 = sp + so) (h13 : greg s 13 = dbase + doff)
+    (bf : Buf Mf dbase dlen) (src : List Nat) (sp : Nat) (hsb : ∀ x ∈ src, x < 2 ^ 8)
+    (b0 : List Nat) (hb0 : b0.length = dlen) (hm : s.mem = Mf b0) (so doff : Nat) (hsrc : SrcFrom (Mf b0) sp src so) (h10 : greg s 10 = sp + so) (h13 : greg s 13 = dbase + doff)
     (hso : so + 256 ≤ src.length) (hdo : doff + 256 ≤ dlen) (hsp : sp + src.length < 2 ^ 63) (hdb : dbase + dlen < 2 ^ 63)
     (ks : Nat → List Nat) (hks : ∀ r, r < 4 → vreg s (9 - r) < 2 ^ (8 * 64) ∧ lanes 8 64 (vreg s (9 - r)) = ks r ∧ (ks r).length = 64 ∧
       ∀ x ∈ ks r, x < 2 ^ 8) :
@@ -62,7 +62,7 @@ theorem xs16_spec (s : State) (hG : s.gpr.length = 16) (hV : s.vec.length = 32) 
     exact ⟨by rw [List.length_take, List.length_drop]; omega, fun x hx => hsb x (List.mem_of_mem_drop (List.mem_of_mem_take hx))⟩
   have hrd : ∀ a, a + 64 ≤ 256 → readMem (Mf b0) (sp + so + a) 64 = .ok ((src.drop (so + a)).take 64) := by
     intro a ha
-    rw [Nat.add_assoc]; exact hsrc b0 hb0 (so + a) 64 (by omega)
+    rw [Nat.add_assoc]; exact hsrc (so + a) 64 (by omega) (by omega)
   have x0 := vpxord_bytes 64 c0 (ks 0) b9 (by decide) (hc 0 (by omega)).1 (hc 0 (by omega)).2 k0.1 k0.2.1
   have x1 := vpxord_bytes 64 c1 (ks 1) b8 (by decide) (hc 64 (by omega)).1 (hc 64 (by omega)).2 k1.1 k1.2.1
   have x2 := vpxord_bytes 64 c2 (ks 2) b7 (by decide) (hc 128 (by omega)).1 (hc 128 (by omega)).2 k2.1 k2.2.1
